@@ -51,6 +51,18 @@ def sha(obj):
 # --------------------------------------------------------------------------------------------
 # repository under test
 # --------------------------------------------------------------------------------------------
+def exc_name(e, allow_foreign=False):
+    """class name of an exception the implementation raised. The library's own `trie.exceptions.ValidationError` and
+    `eth_utils.ValidationError` are unrelated classes with the same name: a caller's `except ValidationError` catches one of
+    them. Everything except `trie/fog.py` raises the library's own; a same-named foreign class is reported as such."""
+    n = type(e).__name__
+    if n == "ValidationError" and not allow_foreign:
+        import trie.exceptions
+        if not isinstance(e, trie.exceptions.ValidationError):
+            return "ValidationError@" + type(e).__module__
+    return n
+
+
 def import_repo():
     """Import the implementation from the repository's working tree and make sure that is what
     we got (the interpreter has /repo installed in editable mode)."""
